@@ -206,7 +206,7 @@ Definition step_m (c : cfg) (s : state) (o : op) : option state :=
   match mp s, o with
   | M0, OSubmit TJM => Some (set_jp (set_mp s MSpin) (updt (jp s) TJM JStart))       (* pool.submit(_loop_thread) *)
   | MSpin, OChk b => if bool_eqb b (running s)                                         (* while not loop.is_running() *)
-                     then Some (set_mp s (if b then MLit else MSleep)) else None
+                     then (if b then Some (set_mp s MLit) else Some (set_mp s MSleep)) else None
   | MSleep, OSleep => Some (set_mp s MSpin)                                            (*   sleep(0) *)
   | MLit, OLitret b => if bool_eqb b (running s) then Some (set_mp s MWait) else None  (* return _stopper *)
   | MWait, OWait =>
@@ -233,12 +233,12 @@ Definition step_job (c : cfg) (s : state) (t : tid) (o : op) : option state :=
   match jp s t, o with
   | JStart, OTbl r =>                                         (* try: return _LOOP_LOCKS[key] *)
       if optnat_eqb r (tbl s)
-      then Some (setj s t (match tbl s with Some l => JAcq l | None => JCwait end)) else None
+      then match tbl s with Some l => Some (setj s t (JAcq l)) | None => Some (setj s t JCwait) end else None
   | JCwait, OAcq 0 =>                                         (* with _LOOP_LOCKS_CREATE_LOCK: *)
       if is_none (owner s 0) then Some (setj (set_owner s (upd (owner s) 0 (Some t))) t JCin) else None
   | JCin, OTbl r =>                                           (*   try: return _LOOP_LOCKS[key] *)
       if optnat_eqb r (tbl s)
-      then Some (setj s t (match tbl s with Some l => JCrel l | None => JCmk end)) else None
+      then match tbl s with Some l => Some (setj s t (JCrel l)) | None => Some (setj s t JCmk) end else None
   | JCmk, OMklock l =>                                        (*   lock = _LOOP_LOCKS[key] = Lock() *)
       if Nat.eqb l (S (nlocks s)) then Some (setj (set_tbl s (Some l) l) t (JCrel l)) else None
   | JCrel l, ORel 0 =>
@@ -250,7 +250,8 @@ Definition step_job (c : cfg) (s : state) (t : tid) (o : op) : option state :=
       match t with
       | TJM =>                                                (* loop.run_forever(): checks "already running" inside *)
           if Nat.eqb k (length (inside s))
-          then Some (setj (set_inside s (inside s ++ [t])) t (if running s then JBad l else JRun l))
+          then (if running s then Some (setj (set_inside s (inside s ++ [t])) t (JBad l))
+                else Some (setj (set_inside s (inside s ++ [t])) t (JRun l)))
           else None
       | TJ i =>                                               (* loop.run_until_complete(aw) *)
           if Nat.eqb k 0 && negb (running s)
@@ -275,22 +276,21 @@ Definition step_job (c : cfg) (s : state) (t : tid) (o : op) : option state :=
                 end
       | _ => None
       end
-  | JRun l, _ =>
-      match loop_ev c s o with
-      | Some s' => Some s'
-      | None => None
-      end
+  | JRun l, _ => loop_ev c s o
   | JPost l f, ORel l' =>
       if Nat.eqb l' l && owned_by s l t
-      then Some (setj (set_owner s (upd (owner s) l None)) t
-                      (match t with TJM => JFin | _ => JRel f end))
+      then match t with
+           | TJM => Some (setj (set_owner s (upd (owner s) l None)) t JFin)
+           | _ => Some (setj (set_owner s (upd (owner s) l None)) t (JRel f))
+           end
       else None
   | JRel f, ODlv i =>                                         (* run_in_executor's future wakes the caller's loop *)
       match t with
       | TJ k => if Nat.eqb i k then
                   match cp s i with
-                  | CPwait => Some (setj (set_cres (set_cp s (upd (cp s) i CGot))
-                                                   (upd (cres s) i (if f then Some (KLibRT, 0) else res s i))) t JFin)
+                  | CPwait => if f
+                              then Some (setj (set_cres (set_cp s (upd (cp s) i CGot)) (upd (cres s) i (Some (KLibRT, 0)))) t JFin)
+                              else Some (setj (set_cres (set_cp s (upd (cp s) i CGot)) (upd (cres s) i (res s i))) t JFin)
                   | _ => None
                   end
                 else None
@@ -321,8 +321,11 @@ Definition step_c (c : cfg) (s : state) (i : nat) (o : op) : option state :=
       then Some (set_cp (set_inside (sched_aw s i) [TC i]) (upd (cp s) i COwn)) else None
   | CBegun, OChk b =>                                         (* main_loop is not L; if loop.is_running() *)
       if negb own && bool_eqb b (running s) then
-        Some (if b then set_xsub (set_cp s (upd (cp s) i CXchk)) (upd (xsub s) i (hd_error (inside s)))
-              else set_cp s (upd (cp s) i (match c_mode c with MClosed => CClosedP | _ => CPsub end)))
+        (if b then Some (set_xsub (set_cp s (upd (cp s) i CXchk)) (upd (xsub s) i (hd_error (inside s))))
+         else match c_mode c with
+              | MClosed => Some (set_cp s (upd (cp s) i CClosedP))
+              | _ => Some (set_cp s (upd (cp s) i CPsub))
+              end)
       else None
   | CXchk, OCst =>                                            (* run_coroutine_threadsafe(coro, L) *)
       Some (set_cp (sched_aw s i) (upd (cp s) i CXwait))
